@@ -207,7 +207,7 @@ func init() {
 func init() {
 	reg(&propCfg{
 		ID:      "C15",
-		Pkgs:    []string{"tax", "bill"},
+		Pkgs:    []string{"tax", "bill", "addons/pt/saft"},
 		Lenient: []string{"tax", "cbc", "bill", "org", "num", "cal"},
 		Stages:  []stage{{Name: "merge-helpers", Harness: `^H_C15_`}},
 		Functions: []string{"tax.(*TagSet).Merge", "tax.(*CorrectionDefinition).Merge", "tax.Extensions.Merge", "tax.(*ScenarioSet).Merge", "tax.NewScenarioSet", "bill.(*Invoice).supportedTags", "bill.(*Invoice).correctionDef", "bill.(*Invoice).scenarioSummary", "tax.TagSetForSchema", "tax.(*ScenarioSet).SummaryFor"},
